@@ -139,8 +139,8 @@ func processBag(
 		headerlen := binary.LittleEndian.Uint32(buf[:4])
 
 		// header
-		if len(header) < int(headerlen) {
-			header = make([]byte, headerlen*2)
+		if uint64(len(header)) < uint64(headerlen) {
+			header = make([]byte, uint64(headerlen))
 		}
 		_, err = io.ReadFull(activeReader, header[:headerlen])
 		if err != nil {
@@ -168,16 +168,16 @@ func processBag(
 
 		if opcode[0] == OpBagChunk {
 			// data
-			if len(chunkData) < int(datalen) {
-				chunkData = make([]byte, datalen*2)
+			if uint64(len(chunkData)) < uint64(datalen) {
+				chunkData = make([]byte, uint64(datalen))
 			}
 			_, err = io.ReadFull(activeReader, chunkData[:datalen])
 			if err != nil {
 				return err
 			}
 		} else {
-			if len(data) < int(datalen) {
-				data = make([]byte, datalen*2)
+			if uint64(len(data)) < uint64(datalen) {
+				data = make([]byte, uint64(datalen))
 			}
 			_, err = io.ReadFull(activeReader, data[:datalen])
 			if err != nil {
